@@ -21,7 +21,7 @@ func init() {
 			"(c) in the loop that builds attestations, AggregationBits is a bitlist of committeeSizes[i] with bit validatorCommitteeIndices[i] set, Data.Index is committeeIndices[i], Data.Slot is duty.Slot(), root/source/target come from the data parameter and the signature is sigs[i], all with the same i; " +
 			"(d) an attestation is appended only when sigs[i] is non-zero; (e) committeeSizes[i] is duty.CommitteeSize(committeeIndices[i]) for the same i; " +
 			"(f) the committee indices and data fields handed to the signer are the same values used to build the attestations. " +
-			"Added with the third seeding round: (h) outside NewDuty nothing sorts, shuffles, overwrites or copies into an array of an attester duty (through its fields or its getters). Added with the fourth seeding round: (i) the per-validator arrays handed to the signer and the constructor are not fields of the service. Added with the fifth seeding round: (j) every pass of the loop that fills the per-validator arrays stores into all of them; (y) C03.j (per-slot arguments of NewDuty) is taken over. Added with the sixth seeding round and the false-alarm regression: (j, generalised) per-validator arrays filled in one loop are filled together, by stores or by appends; (k) in the attestation signer the per-validator data arrays are never read at a constant position; (l) the attester writes no field of attestation data it did not build itself. NOT decided: that the signer signs over these values (C06 covers its inputs), correctness of the beacon node's committee data, behaviour for arbitrary duty compositions beyond the index-space argument.",
+			"Added with the third seeding round: (h) outside NewDuty nothing sorts, shuffles, overwrites or copies into an array of an attester duty (through its fields or its getters). Added with the fourth seeding round: (i) the per-validator arrays handed to the signer and the constructor are not fields of the service. Added with the fifth seeding round: (j) every pass of the loop that fills the per-validator arrays stores into all of them; (y) C03.j (per-slot arguments of NewDuty) is taken over. Added with the sixth seeding round and the false-alarm regression: (j, generalised) per-validator arrays filled in one loop are filled together, by stores or by appends; (k) in the attestation signer the per-validator data arrays are never read at a constant position; (l) the attester writes no field of attestation data it did not build itself. Added with the seventh seeding round: (m) an element of a result slice is read only after the pass that fills it; (y, extended) the validation clauses C01.f/C01.g and the signer's same-named pass-through C05.k are taken over. NOT decided: that the signer signs over these values (C06 covers its inputs), correctness of the beacon node's committee data, behaviour for arbitrary duty compositions beyond the index-space argument.",
 		Technique: "index-space (provenance of indices) analysis on the typed AST with callee summaries; SSA provenance of composite-literal fields; guard-by-edge-deletion for the zero-signature test",
 		Rule:      "one obligation per analysed function with indexed accesses (a,b), per attestation field (c), per append (d), per store (e), per signer argument (f)",
 	})
@@ -360,7 +360,11 @@ func runC04(p *core.Prog, r *core.Report, tier string) {
 			}
 		})
 	}
-	r.Floor("C04.m reads of elements filled in the same pass", nUBF, 1)
+	// no floor: a pass that appends its elements has no such read (the catalogue edit C04-m-seed-M is the positive example)
+	r.Count("C04.m reads of elements filled in the same pass", nUBF)
+	if nUBF == 0 {
+		r.Hold("C04.m", "no-read-of-same-pass-elements", "", "no element of a result slice is read in the pass that fills it")
+	}
 
 	// (k) in the signer the per-validator data arrays are read at the position of the validator being signed for, never
 	// at a fixed position (one root built from entry 0 and signed by every account)
